@@ -25,7 +25,14 @@ use crate::rng::{derive, Rng};
 pub enum SOp {
     /// Registration / renewal: `dexp` and `dslots` are added to the known expiry / available slots (0 or negative: the
     /// receipt does not extend the subscription and must be refused).
-    Register { t: u32, dexp: i32, dslots: i32 },
+    Register {
+        t: u32,
+        dexp: i32,
+        dslots: i32,
+        /// registered at the tower's other network address (the user moved to its onion / clearnet address)
+        #[serde(default)]
+        alt: bool,
+    },
     /// Acknowledgement for commitment `c` (tower tells `slots` available afterwards).
     Receipt { t: u32, c: u32, slots: u32 },
     Pending { t: u32, c: u32 },
@@ -79,7 +86,7 @@ pub fn gen_store_history(seed: u64) -> StoreHistory {
     let mut ops = vec![];
     for t in 0..n_towers {
         if r.chance(9, 10) {
-            ops.push(SOp::Register { t, dexp: 100, dslots: 100 });
+            ops.push(SOp::Register { t, dexp: 100, dslots: 100, alt: false });
         }
     }
     let n = r.range(4, 30);
@@ -91,6 +98,7 @@ pub fn gen_store_history(seed: u64) -> StoreHistory {
                 t: tw(&mut r),
                 dexp: *r.pick(&[100i32, 1, 0, -1, 50]),
                 dslots: *r.pick(&[100i32, 1, 0, -5, 10]),
+                alt: r.chance(1, 3),
             }),
             1 => ops.push(SOp::Receipt { t: tw(&mut r), c: cm(&mut r), slots: r.range(0, 200) as u32 }),
             2 => ops.push(SOp::Pending { t: tw(&mut r), c: cm(&mut r) }),
@@ -115,7 +123,7 @@ pub fn gen_store_history(seed: u64) -> StoreHistory {
                 let t = tw(&mut r);
                 ops.push(SOp::Abandon { t });
                 if r.chance(1, 2) {
-                    ops.push(SOp::Register { t, dexp: 100, dslots: 100 });
+                    ops.push(SOp::Register { t, dexp: 100, dslots: 100, alt: r.chance(1, 3) });
                 }
             }
             _ => ops.push(SOp::Restart),
@@ -207,7 +215,7 @@ impl Store {
     fn apply(&mut self, op: &SOp) {
         let mut wt = self.wt.take().expect("HARNESS: no live client");
         match op {
-            SOp::Register { t, dexp, dslots } => {
+            SOp::Register { t, dexp, dslots, alt } => {
                 let tid = self.tid(*t);
                 let known = self.model.get(t).cloned();
                 let (slots, start, expiry) = match &known {
@@ -220,7 +228,7 @@ impl Store {
                 };
                 let mut receipt = RegistrationReceipt::new(wt.user_id, slots, start, expiry);
                 receipt.sign(&self.tower_keys[*t as usize].0);
-                let addr = format!("tower{t}.sim:9814");
+                let addr = if *alt { format!("tower{t}.alt:9814") } else { format!("tower{t}.sim:9814") };
                 let res = wt.add_update_tower(tid, &addr, &receipt);
                 let extends = match &known {
                     None => true,
